@@ -609,13 +609,13 @@ def run_traced(cfg, max_batches=400):
                     timeout = 0.0                               # time limit reached at once
                     stride = 10 * cfg['n_batch']
             lim = max(0, nl0 + stride)
-            tr.run_args = dict(n_eff=cfg['n_eff'], n_shell=cfg['n_shell'])
+            tr.run_args = dict(n_eff=cfg['n_eff'], n_shell=cfg['n_shell'], f_live=cfg.get('f_live', 0.01))
             tr.lines.append('RUN %d %d %d' % (lim, cfg['n_shell'], 1 if cfg.get('discard_at_end', False) else 0))
             tr.in_run = True
             tr.iter_open = False
             try:
                 with np.errstate(all='ignore'):
-                    done = s.run(n_eff=cfg['n_eff'], n_shell=cfg['n_shell'], n_like_max=lim, timeout=timeout,
+                    done = s.run(n_eff=cfg['n_eff'], n_shell=cfg['n_shell'], n_like_max=lim, timeout=timeout, f_live=cfg.get('f_live', 0.01),
                                  discard_exploration=cfg.get('discard_at_end', False))
             except Exception as e:     # noqa
                 tr.fail('ANY', 'run() raised %s: %s' % (type(e).__name__, str(e)[:200]), traceback=traceback.format_exc()[-1500:], batch=k)
